@@ -92,10 +92,22 @@ def lowering_tie(run, rnd, quick):
     """Model passes (coq/Lower/Passes.v) vs the real break / continue passes: the real pipeline is run with
     both passes wrapped; input and output trees are exported to the lowering language and Coq checks that
     the model applied to the real input gives the real output, structurally."""
-    from malt.converters import break_statements, continue_statements
+    from malt.converters import break_statements, continue_statements, return_statements
     from export import lower as lower_mod
     captured = {}
-    orig_b, orig_c = break_statements.transform, continue_statements.transform
+    orig_b, orig_c, orig_r = break_statements.transform, continue_statements.transform, return_statements.transform
+
+    def wrap_r(node, ctx, *a, **kw):
+        out = orig_r(node, ctx, *a, **kw)
+        ex = captured.get('ex')
+        if ex is not None:
+            try:
+                inner, used = ex.strip_return_frame(ex.body_of(out))
+                captured['b3'] = ex.block(inner)
+                captured['used'] = used
+            except lower_mod.Unsupported as e:
+                captured['err'] = str(e)
+        return out
 
     def wrap_b(node, ctx):
         ex = lower_mod.Exporter()
@@ -120,13 +132,16 @@ def lowering_tie(run, rnd, quick):
             except lower_mod.Unsupported as e:
                 captured['err'] = str(e)
         return out
-    n = 150 if quick else 1500
-    opts = progs.Opts(reads='none', try_=False, with_=False, raise_=False, nested_def=False, max_stmts=14, loop_else=True,
-                      tuple_assign=False)
-    srcs = [progs.gen_function(rnd, opts) for _ in range(n)]
+    n = 420 if quick else 3000
+    opts1 = progs.Opts(reads='none', try_=False, with_=False, raise_=False, nested_def=False, max_stmts=14, loop_else=True,
+                       tuple_assign=False)
+    opts2 = progs.Opts(reads='none', nested_def=False, max_stmts=14, loop_else=False, tuple_assign=False, except_as=False)
+    opts3 = progs.Opts(reads='none', nested_def=False, max_stmts=12, loop_else=False, tuple_assign=False, except_as=False,
+                       only={'if', 'try', 'return', 'raise', 'expr', 'while', 'with', 'for', 'break', 'continue'})
+    srcs = [progs.gen_function(rnd, rnd.choice([opts1, opts2, opts2, opts3])) for _ in range(n)]
     cases = []
     meta = []
-    break_statements.transform, continue_statements.transform = wrap_b, wrap_c
+    break_statements.transform, continue_statements.transform, return_statements.transform = wrap_b, wrap_c, wrap_r
     try:
         mod = convrun.load_module(srcs, PRELUDE)
         for i, src in enumerate(srcs):
@@ -135,28 +150,51 @@ def lowering_tie(run, rnd, quick):
                 convert(getattr(mod, 'f%d' % i), False, None)
             except Exception:   # noqa  (loop-else is rejected by a later pass; the two passes have run by then)
                 pass
-            if 'err' in captured or not all(k in captured for k in ('b0', 'b1', 'b2')):
+            if 'err' in captured or not all(k in captured for k in ('b0', 'b1', 'b2', 'b3')):
                 continue
-            cases.append('(%d, %s, %s, %s)' % (len(meta), captured['b0'], captured['b1'], captured['b2']))
+            cases.append('(%d, %s, %s, %s, %s, %s)' % (len(meta), captured['b0'], captured['b1'], captured['b2'],
+                                                     captured['b3'], 'true' if captured['used'] else 'false'))
             meta.append(src)
             if re.search(r'\b(break|continue)\b', src):
                 run.nontriv('lower:' + src)
     finally:
-        break_statements.transform, continue_statements.transform = orig_b, orig_c
+        break_statements.transform, continue_statements.transform, return_statements.transform = orig_b, orig_c, orig_r
     run.count(len(cases))
     run.extra['lowering_cases'] = len(cases)
     if not cases:
-        return 'no lowering case could be exported'
+        return 'no lowering case could be exported', []
     body = ['From Coq Require Import List Arith Bool.', 'Import ListNotations.',
             'Require Import MV.Lower.Lang MV.Lower.Passes MV.Lower.PassesCheck.',
             'Definition cases : list lcase := [', ';\n'.join(cases), '].',
-            'Eval vm_compute in failing_lcases cases.']
+            'Eval vm_compute in failing_lcases cases.', 'Eval vm_compute in map which_fails (filter (fun c => negb (check_lcase c)) cases).']
     rc, out = vlib.coq_eval('C01', 'lowering', '\n'.join(body), timeout=600)
     bad = vlib.parse_coq_list_of_nat(out) if rc == 0 else None
     if bad is None:
-        return 'model evaluation failed: ' + out[-400:]
+        return 'model evaluation failed: ' + out[-400:], []
     if bad:
-        return 'model of the break/continue passes and the real passes disagree on %d programs, e.g.\n%s' % (len(bad), meta[bad[0]])
+        return ('model of the break/continue/return passes and the real passes disagree on %d programs, e.g.\n%s' % (
+            len(bad), meta[bad[0]]), [meta[i] for i in bad])
+    return None, []
+
+
+def search_on(programs, rnd):
+    """targeted search after a broken correspondence: the programs on which model and pass disagree are run
+    original vs converted under many decision vectors"""
+    programs = programs[:40]
+    mod = convrun.load_module(programs, PRELUDE)
+    vecs = VECTORS + [[rnd.choice([0, 1, 1, 2]) for _ in range(rnd.randint(1, 9))] for _ in range(60)]
+    for i, src in enumerate(programs):
+        f = getattr(mod, 'f%d' % i)
+        try:
+            g = convert(f, True, None)
+        except Exception as e:  # noqa
+            return ('conversion failed with %s: %s' % (type(e).__name__, str(e)[:200]), src, None)
+        for dv in vecs:
+            a = convrun.run_one(mod, f, dv, False)
+            b = convrun.run_one(mod, g, dv, False)
+            d = convrun.describe_diff(a, b)
+            if d and not is_for_target_finding(src, a, b):
+                return (d, src, dv)
     return None
 
 
@@ -177,7 +215,7 @@ def check(run):
     if tie_ok:
         vlib.standard_proof_step(run, ['Lower/PassesCheck.vo'])
     rnd = random.Random(run.seed * 104729 + 1)
-    lower_bad = None
+    lower_bad, lower_programs = None, []
     nprog = 120 if quick else 1500
     streams = [
         ('main', progs.Opts(loop_else=False, reads='safe', mutation=True, boolops=True, comprehension=True, global_=True,
@@ -185,6 +223,9 @@ def check(run):
         ('control', progs.Opts(loop_else=False, reads='safe', max_stmts=18, max_depth=5, fresh_for_targets=True), 0.2),
         ('helpers', progs.Opts(loop_else=False, reads='safe', boolops=True, max_stmts=10, helper_calls=True,
                                fresh_for_targets=True), 0.15),
+        # dense early-exit shapes: return / raise inside try inside branches, with code after them
+        ('return-try', progs.Opts(loop_else=False, reads='safe', max_stmts=12, max_depth=4, fresh_for_targets=True,
+                                  only={'if', 'try', 'return', 'raise', 'expr', 'while'}), 0.2),
         # for-loop targets that are also assigned elsewhere: the shape of the known finding (root cause C07)
         ('for-target-reuse', progs.Opts(loop_else=False, reads='safe', max_stmts=14), 0.1),
     ]
@@ -214,7 +255,7 @@ def check(run):
     allkinds = [('corpus', 'm, o' in s.split('\n')[0]) for s in csrcs] + kinds
     try:
         if tie_ok:
-            lower_bad = lowering_tie(run, rnd, quick)
+            lower_bad, lower_programs = lowering_tie(run, rnd, quick)
         mod = convrun.load_module(allsrc, PRELUDE)
         nconv = 0
         for i, src in enumerate(allsrc):
@@ -288,6 +329,16 @@ def check(run):
     if not failures and not tie_ok:
         run.violation('translator no longer recognises PyToPy.transform_ast: ' + tie_msg,
                       {'broken_tie': tie_msg, 'searched': 'differential oracle found no failing input'}, found_input=False)
+    if not failures and lower_bad and lower_programs:
+        try:
+            found = search_on(lower_programs, rnd)
+        finally:
+            convrun.cleanup()
+        if found:
+            run.violation('converted function is not observationally identical to the original: ' + found[0],
+                          {'program': found[1], 'decisions': found[2], 'recursive': True, 'features': 'None', 'prelude': PRELUDE,
+                           'found_by': 'targeted search on programs where the lowering-pass model and the real pass disagree'})
+            lower_bad = None
     if not failures and lower_bad:
         run.violation('correspondence between the lowering-pass models and break_statements.py / continue_statements.py broke',
                       {'broken_correspondence': lower_bad, 'theorems_no_longer_applicable': ['break_lowering_correct', 'continue_lowering_correct'],
